@@ -382,16 +382,18 @@ def same_cursor(a, b):
     return isinstance(a, Sym) and isinstance(b, Sym) and a.op == 'plen' and b.op == 'plen' and a.args[0] is b.args[0]
 
 
-def return_lengths(ctx, report):
+def return_lengths(ctx, report, RULE='C03.R3', only=None):
     model = ctx.model
     import json, os
     with open(os.path.join(os.path.dirname(os.path.dirname(os.path.abspath(__file__))), 'nondsl.json')) as fh:
         nondsl = json.load(fh)
     for c in representatives(ctx, '_parse'):
+        if only is not None and c.name not in only:
+            continue
         f = c.resolve('_parse')
         lay = ctx.canon.layout(c, 'parse')
         res = lay.result
-        report.count('C03.R3')
+        report.count(RULE)
         val = res.value
         if not (isinstance(val, tuple) and len(val) == 2):
             if isinstance(val, Sym) and val.op == 'phi' and all(isinstance(a, tuple) and len(a) == 2 for a in val.args):
@@ -414,17 +416,17 @@ def return_lengths(ctx, report):
                     if fact is None:        # not evaluable: the reviewed source fact
                         fact = 'len(enum_item.value.code)' in src and 'code[:len(enum_item.value.code)]' in src
                 if fact:
-                    report.sample({'rule': 'C03.R3', 'class': c.name, 'verdict': 'reviewed', 'reason': REVIEWED_R3[rev[0]]})
+                    report.sample({'rule': RULE, 'class': c.name, 'verdict': 'reviewed', 'reason': REVIEWED_R3[rev[0]]})
                     continue
             if kind is None:
-                report.add('C03.R3', f.construct + '@return-length', 'reported length is not a sound form: %s' % detail)
+                report.add(RULE, f.construct + '@return-length', 'reported length is not a sound form: %s' % detail)
             elif kind == 'const':
                 ms = min_size(ctx.canon.canon(c, 'parse').elements, ctx.canon)
                 fs = sum((fixed_size(e, ctx.canon) or 0) for e in ctx.canon.canon(c, 'parse').elements)
                 if detail != ms or detail != fs:
-                    report.add('C03.R3', f.construct + '@return-length', 'constant length %s is not the number of bytes the layout reads (%s)' % (detail, fs))
+                    report.add(RULE, f.construct + '@return-length', 'constant length %s is not the number of bytes the layout reads (%s)' % (detail, fs))
             else:
-                report.sample({'rule': 'C03.R3', 'class': c.name, 'form': kind, 'length': show(ln)[:60]}, 14)
+                report.sample({'rule': RULE, 'class': c.name, 'form': kind, 'length': show(ln)[:60]}, 14)
 
 
 # ---- R4 -------------------------------------------------------------------------------------------
